@@ -153,6 +153,15 @@ UnaffectedOK(k, op) ==
     LET t == Get0(s.lastPut, k, NoPut) IN
     (On("C08") /\ t.a >= 0 /\ t.blk >= 0 /\ op.line > t.e /\ ~\E d \in s.dets : t.blk <= d.b) => RotationMayHaveTaken(t.blk)
 
+\* C10, the converse: absent eviction an object is readable under every instance name that has a prefix under
+\* which it was uploaded.  "Absent eviction" is decided soundly from the log: the block an acknowledged upload
+\* was written into cannot have been rotated out yet (and nothing was corrupted).
+ReadableOK(e, op) ==
+    (On("C10") /\ ~s.corrupted) =>
+        ~\E x \in DOMAIN s.lastPut :
+            /\ x[2] = e.k /\ IsPrefix(x[1], e.inst)
+            /\ s.lastPut[x].blk >= 0 /\ op.line > s.lastPut[x].e /\ ~RotationMayHaveTaken(s.lastPut[x].blk)
+
 \* C03: after the restart a key that had to survive is readable, unless normal rotation
 \* (old+1 block hand-outs since its upload started) may have evicted it.
 SurvivalOK(k, readable) ==
@@ -163,7 +172,7 @@ GetEnd ==
     /\ Ev.p \in DOMAIN s.inflight
     /\ LET op == s.inflight[Ev.p] IN
        /\ (ReadClause /\ Ev.kind = "Data") => (Ev.what = Ev.k /\ Visible(Ev))
-       /\ Ev.kind = "NotFound" => (RetentionOK(KeyOf(Ev), op) /\ UnaffectedOK(KeyOf(Ev), op))
+       /\ Ev.kind = "NotFound" => (RetentionOK(KeyOf(Ev), op) /\ UnaffectedOK(KeyOf(Ev), op) /\ ReadableOK(Ev, op))
        \* C05 "stays readable": an integrity failure or foreign bytes are as unreadable as NOT_FOUND
        /\ ((Ev.kind = "Error" /\ Ev.what = "Internal") \/ (Ev.kind = "Data" /\ Ev.what # Ev.k)) => RetentionOK(KeyOf(Ev), op)
        /\ SurvivalOK(KeyOf(Ev), Ev.kind = "Data")
@@ -180,7 +189,8 @@ FmEnd ==
            miss == ToSet(Ev.missing)
            pres == {<<Ev.inst, k>> : k \in ks \ miss} IN
        /\ (Ev.res = "OK" /\ ReadClause) => \A k \in ks \ miss : Visible([k |-> k, inst |-> Ev.inst])
-       /\ Ev.res = "OK" => \A k \in miss : RetentionOK(<<Ev.inst, k>>, op) /\ SurvivalOK(<<Ev.inst, k>>, FALSE) /\ UnaffectedOK(<<Ev.inst, k>>, op)
+       /\ Ev.res = "OK" => \A k \in miss : /\ RetentionOK(<<Ev.inst, k>>, op) /\ SurvivalOK(<<Ev.inst, k>>, FALSE) /\ UnaffectedOK(<<Ev.inst, k>>, op)
+                                            /\ ReadableOK([k |-> k, inst |-> Ev.inst], op)
        /\ s' = [s EXCEPT
              !.touch = IF Ev.res = "OK"
                        THEN [x \in DOMAIN @ \cup pres |-> IF x \in pres THEN [a |-> op.a, e |-> l] ELSE @[x]]
